@@ -529,6 +529,8 @@ pub const NAMES: &[&str] = &[
     "a", "b", "ab", "a.b", "a b", "a-", "a!", "a+", "a0", "a~", "A", "z", "é", "éa", "日", "日本",
     "😀", ".x", ".a", "~", "-", "0", "x.txt", "b.c", "c", "d", "ab.c", "a_b", " ", "#", "a.",
     "é.d", "aé", "...", "a\u{301}",
+    // names that end (or begin) with white space of one kind or another, beside `a`, `b`, `é`, `日`
+    "a ", " a", "b\t", "é\u{a0}", "日\u{3000}", "a\n",
 ];
 
 pub const UIDS: &[u32] = &[0, 1, 2, 7, 65534];
